@@ -569,16 +569,36 @@ func c38Blob(h *H) {
 	}
 	plain := append([]byte(`{"nodes":[],"x":"`), []byte(fmt.Sprintf("%x", h.Bytes(20+h.Intn(200))))...)
 	plain = append(plain, []byte(`"}`)...)
-	var bid restic.ID
-	err := repo.WithBlobUploader(context.Background(), func(ctx context.Context, up restic.BlobSaverWithAsync) error {
-		var e error
-		bid, _, _, e = up.SaveBlob(ctx, restic.TreeBlob, plain, restic.ID{}, false)
-		return e
-	})
-	if err != nil {
-		panic(err)
+	// variant 0: pack written by restic itself (tree blobs only), the tree blob is loaded;
+	// 1 / 2: hand-built MIXED pack (tree + data blob, as old restic versions wrote them): the tree
+	// blob / the data blob is loaded. A cached mixed pack serves its data blob ranges too.
+	variant := h.Intn(3)
+	bkind := "auto"
+	var bh restic.BlobHandle
+	if variant == 0 {
+		var bid restic.ID
+		err := repo.WithBlobUploader(context.Background(), func(ctx context.Context, up restic.BlobSaverWithAsync) error {
+			var e error
+			bid, _, _, e = up.SaveBlob(ctx, restic.TreeBlob, plain, restic.ID{}, false)
+			return e
+		})
+		if err != nil {
+			panic(err)
+		}
+		bh = restic.BlobHandle{ID: bid, Type: restic.TreeBlob}
+	} else {
+		fileData := h.Bytes(50 + h.Intn(300))
+		if _, _, err := repository.VerifC38AddMixedPack(context.Background(), repo, be.Backend, plain, fileData); err != nil {
+			panic(err)
+		}
+		bh = restic.BlobHandle{ID: restic.Hash(plain), Type: restic.TreeBlob}
+		if variant == 2 {
+			bh = restic.BlobHandle{ID: restic.Hash(fileData), Type: restic.DataBlob}
+			plain = fileData
+			bkind = "cacheable"
+		}
 	}
-	bh := restic.BlobHandle{ID: bid, Type: restic.TreeBlob}
+	var err error
 	packID, off, length, ok := repository.VerifC38LookupBlob(repo, bh)
 	if !ok {
 		panic("c38: blob not in index")
@@ -598,7 +618,7 @@ func c38Blob(h *H) {
 	be.watch, be.cellPath = packID.String(), cellPath
 
 	h.Case("blob")
-	h.Rec("blob", Itoa(int(length)), Itoa(int(off)), Itoa(len(packBytes)))
+	h.Rec("blob", Itoa(int(length)), Itoa(int(off)), Itoa(len(packBytes)), bkind, []string{"tree-pack", "mixed-pack-tree-blob", "mixed-pack-data-blob"}[variant])
 	nloads := 1 + h.Intn(2)
 	for l := 0; l < nloads; l++ {
 		beState := "intact"
